@@ -119,6 +119,43 @@ def check(chk):
                detail="guards %s" % [sorted(gcfg.guards_at(n.id).items()) for n, c in cs], construct=g.ident, text="goal test in %s.%s" % (cls.name, mn))
     chk.floor("DOM-34", 6)
 
+    # ------------------------------------------------------------ START-18
+    # whether a block starts enabled: an explicit start_enabled (yes *or no*) decides; only a missing one falls back to "enabled unless
+    # there are enable_events".  A truthiness test of the setting treats an explicit `no` like a missing one: a block that is armed by
+    # restart_events only starts enabled and counts although it was configured off.
+    fi = base.methods["_initialize"]
+    chk.analysed(fi)
+    icfg = fi.cfg()
+    st_ = [n for n in icfg.nodes if n.kind == "stmt" and isinstance(n.ast, ast.Assign) and src(n.ast.targets[0]) == "self._start_enabled"]
+    chk.need(st_, "START-18", "LogicBlock._initialize decides whether the block starts enabled", fi)
+    from sa.cfg import canon_set as _cs0, canon_fact as _cf0
+    from sa.helpers import positive as _pos0
+    SE = "self.config['start_enabled']"
+    cases = []
+    for n in st_:
+        g0 = dict(icfg.guards_at(n.id))
+        if isinstance(n.ast.value, ast.IfExp):      # one conditional expression instead of if/else: the same two cases
+            t_ = n.ast.value.test
+            neg = isinstance(t_, ast.UnaryOp) and isinstance(t_.op, ast.Not)
+            tt = src(t_.operand if neg else t_)
+            cases.append((n, n.ast.value.body, dict(g0, **{tt: not neg})))
+            cases.append((n, n.ast.value.orelse, dict(g0, **{tt: neg})))
+        else:
+            cases.append((n, n.ast.value, g0))
+    for n, val, g0 in cases:
+        g = _pos0(set(_cs0(g0)))
+        v = src(val).replace('"', "'")
+        if v == SE:
+            ok = g == _pos0({_cf0(SE + " is not None", True)}) or g == _pos0({_cf0(SE + " is None", False)})
+            what = "the explicit setting is taken exactly when there is one (is not None)"
+        elif v == "not self.config['enable_events']":
+            ok = g == _pos0({_cf0(SE + " is not None", False)}) or g == _pos0({_cf0(SE + " is None", True)})
+            what = "the fallback (no enable_events) applies exactly when start_enabled is missing (is None)"
+        else:
+            ok, what = False, "start-enabled is either the explicit setting or the enable_events fallback"
+        chk.ob("START-18", what, ok, fi.where(n.ast), detail="`%s` under %s" % (v, sorted(g)), construct=fi.ident, text="start enabled source " + v[:40])
+    chk.ob("START-18", "both sources of start-enabled present", len(cases) == 2, fi.where(), detail="%d" % len(cases), construct=fi.ident, text="start enabled sources")
+
     # ------------------------------------------------------------ PAIR-21
     f = counter.methods["count"]
     cfg = f.cfg()
@@ -132,6 +169,14 @@ def check(chk):
                construct=f.ident, text="window without exit delay")
         chk.ob("PAIR-21", "the window is entered only when one is configured", cfg.guards_at(n.id).get("self.config['multiple_hit_window']") is True,
                f.where(n.ast), construct=f.ident, text="window guard")
+    for n in ent:
+        from sa.cfg import canon_set as _cs, canon_fact as _cf
+        from sa.helpers import positive as _pos
+        got = _pos(set(_cs(cfg.guards_at(n.id))))
+        want = _pos({_cf("self.enabled", True), _cf("self.ignore_hits", False), _cf("self.config['multiple_hit_window']", True)})
+        chk.ob("PAIR-21", "every accepted hit opens the configured window - also the one that completes the counter (nothing else decides)", got == want,
+               f.where(n.ast), detail="window opened under %s, expected exactly %s" % (sorted(got), sorted(want)), construct=f.ident,
+               text="window opening condition")
     wname = None
     for n, c in arm + [(x, None) for x in ent]:
         # the window is opened by an *accepted* hit only: a hit that is ignored must not restart it (a steady stream of hits spaced
@@ -302,6 +347,11 @@ def battery():
         M("timeout survives completion", LB, "        self.completed = True\n        self.delay.remove(\"timeout\")", "        self.completed = True", "DOM-34"),
         M("disable before reset", LB, "        # call reset to reset completion\n        if self.config['reset_on_complete']:\n            self.reset()\n\n        # disable block\n        if self.config['disable_on_complete']:\n            self.disable()", "        # disable block\n        if self.config['disable_on_complete']:\n            self.disable()\n\n        # call reset to reset completion\n        if self.config['reset_on_complete']:\n            self.reset()", "DOM-34"),
         M("accrual completes one early", LB, "        if self.value.count(True) == len(self.value):", "        if self.value.count(True) >= len(self.value) - 1:", "DOM-34"),
+        M("explicit start_enabled: no treated like a missing one", LB, "        if self.config['start_enabled'] is not None:\n            self._start_enabled = self.config['start_enabled']\n        else:\n            self._start_enabled = not self.config['enable_events']", "        self._start_enabled = self.config['start_enabled'] or not self.config['enable_events']", "START-18"),
+        M("explicit start_enabled tested for truth", LB, "        if self.config['start_enabled'] is not None:\n            self._start_enabled = self.config['start_enabled']", "        if self.config['start_enabled']:\n            self._start_enabled = self.config['start_enabled']", "START-18"),
+        M("twin: start_enabled test inverted", LB, "        if self.config['start_enabled'] is not None:\n            self._start_enabled = self.config['start_enabled']\n        else:\n            self._start_enabled = not self.config['enable_events']", "        if self.config['start_enabled'] is None:\n            self._start_enabled = not self.config['enable_events']\n        else:\n            self._start_enabled = self.config['start_enabled']", None),
+        M("twin: start_enabled as one conditional expression", LB, "        if self.config['start_enabled'] is not None:\n            self._start_enabled = self.config['start_enabled']\n        else:\n            self._start_enabled = not self.config['enable_events']", "        self._start_enabled = self.config['start_enabled'] if self.config['start_enabled'] is not None else not self.config['enable_events']", None),
+        M("completing hit opens no window", LB, "                self.complete()\n\n            if self.config['multiple_hit_window']:", "                self.complete()\n            elif self.config['multiple_hit_window']:", "PAIR-21"),
         M("window entered without delay", LB, "                self.ignore_hits = True\n                self.delay.add(name='ignore_hits_within_window',\n                               ms=self.config['multiple_hit_window'],\n                               callback=self.stop_ignoring_hits)", "                self.ignore_hits = True", "PAIR-21"),
         M("disable wipes all delays", LB, "        self.post_update_event()\n        self.delay.remove(\"timeout\")\n\n    @event_handler(4)", "        self.post_update_event()\n        self.delay.clear()\n\n    @event_handler(4)", "PAIR-21"),
         M("hit inside window counted", LB, "        if not self.ignore_hits:\n            self.value += self.hit_value", "        if True:\n            self.value += self.hit_value", "PAIR-21"),
